@@ -335,6 +335,15 @@ def check_copy(ctx, exe, runner):
                           'target %d coincides with active datum %d (absolute rank) but simulation %d variable %d receives %r instead of %r%s; data selection %s' % (
                               bad[0], bad[1], bad[2], bad[3], None if bad[4] is None else float(bad[4]), float(bad[5]),
                               ' = value of datum %s' % others if others else '', [d[0] for d in c[5]]), {'case': sx_str(c), 'impl': sx_str(ii), 'model': sx_str(mi)}); ctx.found_input = True
+            continue
+        # ... and a target (masked, or lying on masked data only, or off the data) keeps its row
+        touched = None
+        for it, t in enumerate(c[6]):
+            on = [j for j, d in enumerate(c[5]) if d[0] and d[1] == t[1]]
+            if (not t[0] or not on) and out[it] != [undy(v) for v in t[2]]: touched = it
+        if touched is not None:
+            ctx.violation('_updateData2ToTarget:points:row-modified-without-active-datum', 'target %d (active=%d) coincides with no active datum but its simulated values were overwritten; '
+                          'data selection %s' % (touched, c[6][touched][0], [d[0] for d in c[5]]), {'case': sx_str(c), 'impl': sx_str(ii), 'model': sx_str(mi)}); ctx.found_input = True
         else:
             ctx.violation('model-drift:_updateData2ToTarget', 'rows after the copy differ from the model although every active target on an active datum carries its value',
                           {'case': sx_str(c), 'impl': sx_str(ii), 'model': sx_str(mi)}, found_input=False)
